@@ -176,3 +176,136 @@ Proof.
   - repeat constructor; intros blk v1 v2; simpl; intuition (subst; simpl in *; congruence).
   - vm_compute. discriminate.
 Qed.
+
+(* ================================================================== replay, seal, reload *)
+From C17 Require Import ModelSeal ProofsSeal.
+
+(* Restarts anywhere in a one-fraction history are invisible. For EVERY history of steps without a
+   seal — bulks, concurrent groups and restarts in any order and number — over well formed,
+   non-empty bulks: the store holds one active fraction whose index state is, as a whole record
+   (LID table, postings, position map, docs blocks, DocsTotal, From, To), the state of the same
+   bulks delivered without any restart, and whose on-disk log is all delivered bulks with their
+   repeats; replaying that log gives the live state; hence (C17_idempotent) LID table, postings,
+   DocsTotal/From/To equal those of the history with every repeat removed. [replay := the same
+   append step folded over the log: Active.Replay hands every meta block to the same appendWorker.] *)
+Theorem C17_replay_idempotent :
+  forall cfg h, no_seal h -> Forall bulk_wf (bulks_of h) -> Forall (fun b : bulk => b <> []) (bulks_of h) ->
+    let live := run_active (bulks_of h) in
+    run_store2 cfg h = [FA live (bulks_of h)]
+    /\ replay (bulks_of h) = live
+    /\ let a' := run_active (dedupb (bulks_of h)) in
+       a_ids live = a_ids a' /\ (forall t, tok_lids live t = tok_lids a' t) /\
+       a_total live = a_total a' /\ a_from live = a_from a' /\ a_to live = a_to a'.
+Proof. exact replay_idempotent. Qed.
+Print Assumptions C17_replay_idempotent.
+
+(* A second restart changes nothing — for EVERY store state (any mix of sealed fractions and
+   active fractions with arbitrary index state and log), no reachability hypothesis. *)
+Theorem C17_replay_of_replay :
+  forall cfg s, do_step2 cfg (do_step2 cfg s SRestart) SRestart = do_step2 cfg s SRestart.
+Proof. exact restart_idem. Qed.
+Print Assumptions C17_replay_of_replay.
+
+(* Sealing keeps the first deliveries: for EVERY history of well formed bulks into one fraction and
+   every seal configuration, the sealed tables of the history equal the sealed tables of the
+   history with every repeat removed — LID table, every token's LIDs, DocsTotal/From/To, and with
+   sorted docs (the default) also the position table and the docs blocks, i.e. the whole sealed
+   form; DocsTotal is the number of first deliveries. (With SkipSortDocs the sealed form keeps the
+   active fraction's position map and blocks, which C17_fetch_first_delivery characterises.)
+   What "every ID listed once" means for the LID table is stated by C17_sealed_ids_first_deliveries
+   below (partial). *)
+Theorem C17_seal_preserves :
+  forall cfg h, Forall bulk_wf h ->
+    let s := seal cfg (run_active h) in let s' := seal cfg (run_active (dedupb h)) in
+    s_ids s = s_ids s' /\ (forall t, stok_lids s t = stok_lids s' t) /\
+    s_total s = s_total s' /\ s_from s = s_from s' /\ s_to s = s_to s' /\
+    (sc_skipsort cfg = false -> s_pos s = s_pos s' /\ s_blocks s = s_blocks s') /\
+    s_total s = N.of_nat (length (first_deliveries (map (map fst) h))).
+Proof. exact seal_preserves_eq. Qed.
+Print Assumptions C17_seal_preserves.
+
+(* FULL statement not proved (kept as a comment): under has_all h,
+     Permutation (tl (s_ids (seal cfg (run_active h)))) (map m_id (first_deliveries (map (map fst) h)))
+   i.e. the sealed LID table lists every first-delivered meta exactly once. Proved here: every LID
+   the all-token lists is in range and every first-delivered ID is found in the sealed table
+   (used by the fetch theorem); missing: NoDup of the sorted all-token postings (sortedness of
+   insert_lid + adjacent removal), which would give the permutation. The correspondence run checks
+   the full statement on every sealed dump (sdump_spec_ok: table = system entry :: sort_desc ids). *)
+
+(* Fetch from the sealed form serves the FIRST delivery: for every history of well formed bulks in
+   which every meta carries the all-token, every seal configuration (sorted docs with any block
+   size, or SkipSortDocs) and every ID other than the zero ID, the sealed fraction returns the bytes
+   of the first document with that ID in the whole history (None if it never came) — never a
+   repeat's bytes, although with SkipSortDocs the repeats' bytes are still in the docs file.
+   (ID (0,0): writeDocBlocksInOrder starts with prevID = zero ID and would skip such a document; a
+   zero MID is never produced by the proxy. Excluded, noted in the report.) *)
+Theorem C17_sealed_fetch_first_delivery :
+  forall cfg h, Forall bulk_wf h -> has_all h -> forall i, i <> (0, 0)%N ->
+    sealed_fetch (seal cfg (run_active h)) i = ref_fetch1 (concat h) i.
+Proof. exact sealed_fetch_first. Qed.
+Print Assumptions C17_sealed_fetch_first_delivery.
+
+(* All forms, history vs. repeat-free history. PARTIAL: the FULL statement would also say that a
+   single-token search (listed IDs, total, histogram, aggregation) on the sealed form equals the
+   search on the active form:
+     forall iv gt t, search_frac iv gt (sealed_view (seal cfg a)) t = search_frac iv gt (uniq_tok a) t
+   (needs: sort_lids is a permutation, new_lid is injective on the all-token's LIDs, hist_add
+   commutes). Proved: the replayed state IS the live state; DocsTotal/From/To agree across live
+   active, replayed active, sealed, reloaded sealed, and the sealed form of the repeat-free history;
+   fetch returns the first delivery's bytes in all five; and within each form (active; sealed;
+   reloaded) every search observable of the history equals that of the repeat-free history.
+   Active-vs-sealed search equality is compared by the correspondence run on every history. *)
+Theorem C17_idempotent_all_forms_partial :
+  forall cfg h, Forall bulk_wf h -> has_all h ->
+    let a := run_active h in let a' := run_active (dedupb h) in
+    let s := seal cfg a in let s' := seal cfg a' in
+    replay h = a /\
+    (a_total a = a_total a' /\ s_total s = a_total a /\ s_total (reload s) = a_total a /\ s_total s' = a_total a) /\
+    (a_from a = a_from a' /\ s_from s = a_from a /\ s_from (reload s) = a_from a /\ s_from s' = a_from a) /\
+    (a_to a = a_to a' /\ s_to s = a_to a /\ s_to (reload s) = a_to a /\ s_to s' = a_to a) /\
+    (forall i, i <> (0, 0)%N ->
+       fetch a i = ref_fetch1 (concat h) i /\ fetch a' i = ref_fetch1 (concat h) i /\
+       sealed_fetch s i = ref_fetch1 (concat h) i /\ sealed_fetch (reload s) i = ref_fetch1 (concat h) i /\
+       sealed_fetch s' i = ref_fetch1 (concat h) i) /\
+    (forall iv gt t,
+       search_frac iv gt a t = search_frac iv gt a' t /\
+       search_frac iv gt (sealed_view s) t = search_frac iv gt (sealed_view s') t /\
+       search_frac iv gt (sealed_view (reload s)) t = search_frac iv gt (sealed_view s) t).
+Proof. exact all_forms. Qed.
+Print Assumptions C17_idempotent_all_forms_partial.
+
+(* non-vacuity: ex_h (bulk 2 repeats A with other bytes, bulk 3 repeats bulk 1) satisfies every
+   hypothesis, with restarts between the bulks; the sealed forms (sorted docs with a block size
+   that splits the docs, and SkipSortDocs) list A, its nested meta, B and C once, newest first,
+   and serve A's first bytes *)
+Definition ex_steps : list step :=
+  match ex_h with
+  | [b1; b2; b3] => [SBulk b1; SRestart; SBulk b2; SRestart; SRestart; SBulk b3]
+  | _ => []
+  end.
+
+Example C17_seal_hypotheses_hold :
+  has_all ex_h /\ Forall (fun b : bulk => b <> []) ex_h /\ no_seal ex_steps /\ bulks_of ex_steps = ex_h.
+Proof.
+  split; [|split; [|split]].
+  - unfold has_all, ex_h. repeat (apply Forall_cons || apply Forall_nil); simpl; tauto.
+  - repeat constructor; discriminate.
+  - repeat constructor; discriminate.
+  - reflexivity.
+Qed.
+
+Example C17_replay_nonvacuous :
+  run_store2 (mkCfg false 40) ex_steps = [FA (run_active ex_h) ex_h]
+  /\ a_total (run_active ex_h) = 4%N.
+Proof. vm_compute. auto. Qed.
+
+Example C17_seal_nonvacuous :
+  let s := seal (mkCfg false 40) (run_active ex_h) in
+  let k := seal (mkCfg true 0) (run_active ex_h) in
+  s_ids s = [sys_id; (1010, 2); (1005, 1); (1005, 1); (1001, 3)]%N
+  /\ stok_lids s 2 = [1; 2] /\ stok_lids s 1 = [3; 4] /\ s_total s = 4%N
+  /\ s_pos s = [None; Some (0, 0%N); Some (0, 4%N); Some (0, 4%N); Some (0, 8%N)]
+  /\ sealed_fetch s (1005, 1)%N = Some 0%N /\ sealed_fetch k (1005, 1)%N = Some 0%N
+  /\ s_ids k = s_ids s /\ nth 2 (s_pos k) None = Some (0, 0%N) /\ length (s_blocks k) = 3
+  /\ sealed_fetch s (7, 7)%N = None.
+Proof. vm_compute. repeat split. Qed.
